@@ -15,11 +15,15 @@ fn max_dur_ms(n: &Node) -> u64 {
     match op {
       UOp::Delay(d) | UOp::DelaySubscription(d) | UOp::Debounce(d) | UOp::BufferTime(d) | UOp::SampleInterval(d) => *d as u64,
       UOp::Throttle(w, _) | UOp::BufferCountTime(_, w) => *w as u64,
+      UOp::DelayAt(off) | UOp::DelaySubscriptionAt(off) => (*off).max(0) as u64,
       _ => 0,
     }
   }
   match n {
     Node::U(op, s) => u(op).max(max_dur_ms(s)),
+    Node::Defer(s) => max_dur_ms(s),
+    Node::IntervalAt { off, p, .. } | Node::TickerAt { off, p } => (*p as u64).max((*off).max(0) as u64),
+    Node::TimerAt { off } => (*off).max(0) as u64,
     Node::B(_, a, b) => max_dur_ms(a).max(max_dur_ms(b)),
     Node::Flat { outer, inners, .. } => inners.iter().map(max_dur_ms).fold(max_dur_ms(outer), u64::max),
     Node::Interval { p, .. } | Node::Ticker { p } => *p as u64,
@@ -62,7 +66,7 @@ impl Scenario for C16 {
         _ => Node::B(BOp::TakeUntil, Box::new(sub), Box::new(Node::Hot(0))),
       };
       let names = r.op_names();
-      if r.valid(0) && r.size() <= 16 && names.iter().any(|n| matches!(n.as_str(), "Ticker" | "PullIter" | "PollStream")) {
+      if r.valid(0) && r.size() <= 16 && names.iter().any(|n| matches!(n.as_str(), "Ticker" | "TickerAt" | "PullIter" | "PollStream" | "PollStreamR")) {
         break r;
       }
     };
@@ -195,7 +199,7 @@ pub fn check_def() -> PropertyCheck {
     id: "C16",
     scenarios: vec![Box::new(C16)],
     runs: (200_000, 8_000_000),
-    rule: "case = early terminator (take, first, element_at, take_while, contains, all, take_until) over a random operator tree (depth <=3/4, catalogue minus share) whose leaves are unbounded interval / counting from_iter / counting from_stream producers and hot inputs - so the producer sits in main and in notifier/secondary positions of the two-input operators - driven by a script and then run to idle on a FIFO prompt executor; non-trivial = the subscriber saw its terminal",
+    rule: "case = early terminator (take, first, element_at, take_while, contains, all, take_until) over a random operator tree (depth <=3/4, catalogue minus share) whose leaves are unbounded interval / interval_at / counting from_iter / counting from_stream / counting from_stream_result producers and hot inputs - so the producer sits in main and in notifier/secondary positions of the two-input operators - driven by a script and then run to idle on a FIFO prompt executor; non-trivial = the subscriber saw its terminal",
     assumptions: vec!["share() is excluded here: it never disconnects its source (C11 known finding)"],
   }
 }
